@@ -61,7 +61,9 @@ Record InvW (s : st) : Prop := {
   w_freed : freed s = negb (any_live s);
   w_taint : taint_ok (fx s) (tn s);
   (* a registered SendFuture holds its item *)
-  w_item : forall f x, getF f s = Some x -> f_recv x = false -> f_reg x = true -> f_item x <> None
+  w_item : forall f x, getF f s = Some x -> f_recv x = false -> f_reg x = true -> f_item x <> None;
+  (* a receive-side waiter is unlinked in the same critical section that marks it SUCCESS *)
+  w_arq_st : forall f w x, In (f, w) (arq s) -> getF f s = Some x -> is_success (f_state x) = false
 }.
 
 Record InvK (s : st) : Prop := {
@@ -263,7 +265,9 @@ Proof.
     - exact w_taint0.
     - intros f1 y Hy Hr Hd. change (getF f1 (setF f x' s) = Some y) in Hy. getF_cases Hy.
       + apply (w_item0 f x Hg); assumption.
-      + eapply w_item0; eauto. }
+      + eapply w_item0; eauto.
+    - intros f1 w1 y Hi Hy. apply unlink_In in Hi. destruct Hi as [Hi Hne]. cbn [fst] in Hne.
+      change (getF f1 (setF f x' s) = Some y) in Hy. getF_cases Hy; [contradiction|]. eapply w_arq_st0; eauto. }
   assert (Hcnt : forall P, (cnt P (fs s') + b2n (P x) = cnt P (fs s) + b2n (P x'))%nat).
   { intros P. subst s'. st_simpl. apply cnt_setF; [apply (w_fnd s HW) | exact Hg]. }
   assert (HKs : InvK s' /\ (t06 (tn s) = false -> t12 (tn s) = false ->
@@ -357,7 +361,9 @@ Proof.
     - exact w_taint0.
     - intros f1 y Hy Hr Hd. change (getF f1 (setF f x' s) = Some y) in Hy. getF_cases Hy.
       + apply (w_item0 f x Hg); assumption.
-      + eapply w_item0; eauto. }
+      + eapply w_item0; eauto.
+    - intros f1 w1 y Hi Hy. change (getF f1 (setF f x' s) = Some y) in Hy.
+      destruct (w_arq_k0 f1 w1 Hi) as [z [Hz Hrz]]. getF_cases Hy; [congruence|]. eapply w_arq_st0; eauto. }
   assert (Hcnt : forall P, (cnt P (fs s') + b2n (P x) = cnt P (fs s) + b2n (P x'))%nat).
   { intros P. subst s'. st_simpl. apply cnt_setF; [apply (w_fnd s HW) | exact Hg]. }
   assert (HKs : InvK s' /\ (t12 (tn s) = false -> (ncap s <= nq s + cnt pi_s (fs s') - 1)%nat \/ cnt pw_s (fs s') = 0%nat)).
@@ -645,7 +651,9 @@ Proof.
     - exact w_taint0.
     - intros f1 y Hy Hr Hd. change (getF f1 (setF f x' s) = Some y) in Hy. getF_cases Hy.
       + apply (w_item0 f x Hg); assumption.
-      + eapply w_item0; eauto. }
+      + eapply w_item0; eauto.
+    - intros f1 w1 y Hi Hy. change (getF f1 (setF f x' s) = Some y) in Hy.
+      getF_cases Hy; [reflexivity|]. eapply w_arq_st0; eauto. }
   assert (Hcnt : forall P, (cnt P (fs s') + b2n (P x) = cnt P (fs s) + b2n (P x'))%nat).
   { intros P. subst s'. apply cnt_setF; [apply (w_fnd s HW) | exact Hg]. }
   split; [|split; [exact HWs|]].
@@ -840,9 +848,10 @@ Lemma InvW_upd f x x' arq' asq' s :
   (rc s = 0 -> In f (akeys asq') -> is_waiting (f_state x') = false) ->
   (t06 (tn s) = false -> In f (akeys arq') -> f_reg x' = true) ->
   (f_recv x' = false -> f_reg x' = true -> f_item x' <> None) ->
+  (In f (akeys arq') -> is_success (f_state x') = false) ->
   InvW (with_arq arq' (with_asq asq' (setF f x' s))).
 Proof.
-  intros HW Hg Er Eh El Hreg Hnd1 Hnd2 Hq1 Hq2 Hk1 Hk2 Hwq Hs0 Hr0 Ht6 Hit.
+  intros HW Hg Er Eh El Hreg Hnd1 Hnd2 Hq1 Hq2 Hk1 Hk2 Hwq Hs0 Hr0 Ht6 Hit Hst.
   destruct HW. constructor; unfold any_live in *; st_simpl.
   - exact w_hnd0.
   - apply NoDup_aset. exact w_fnd0.
@@ -881,6 +890,9 @@ Proof.
   - intros f1 y Hy Hr Hd. change (getF f1 (setF f x' s) = Some y) in Hy. getF_cases Hy.
     + apply Hit; assumption.
     + eapply w_item0; eauto.
+  - intros f1 w1 y Hi Hy. change (getF f1 (setF f x' s) = Some y) in Hy. getF_cases Hy.
+    + apply Hst. eapply In_akeys; exact Hi.
+    + destruct (Hq1 f1 w1 Hi) as [[_ Ho]|[E _]]; [|contradiction]. eapply w_arq_st0; eauto.
 Qed.
 
 (* the data part when the payload cell of f does not change *)
@@ -947,6 +959,7 @@ Proof.
     + cbn. auto.
     + intros _ Hi. apply unlink_keys in Hi. destruct Hi as [_ Hi]. contradiction.
     + cbn. intros Hr. congruence.
+    + intros Hi. apply unlink_keys in Hi. destruct Hi as [_ Hi]. contradiction.
   - exact Hrecv.
   - intros T. destruct (w_arq_reg s HW T f w Hin) as [y [Hy Hr]]. congruence.
 Qed.
@@ -984,6 +997,8 @@ Proof.
     + cbn. auto.
     + cbn. intros _ _. exact Hreg.
     + cbn. apply (w_item s HW f x Hg).
+    + intros Hi. destruct (akeys_In _ _ Hi) as [w1 Hi1].
+      destruct (w_arq_k s HW f w1 Hi1) as [z [Hz Hr]]. congruence.
   - exact Hrecv.
   - exact Hreg.
 Qed.
